@@ -96,7 +96,11 @@ class SQuad(EditableModule):
         torch.Tensor
             The integrated values.
         """
-        swapaxes = dim != -1
+        if dim < 0:
+            # the integrated dimension is removed, so a negative index would
+            # refer to another dimension afterwards
+            dim = dim + y.ndim
+        swapaxes = dim != y.ndim - 1
         if swapaxes:
             y = y.transpose(dim, -1)
         if y.shape[-1] != self.nx:
